@@ -154,6 +154,24 @@ FAILING = [
 ]
 
 
+def poison_twins(src):
+    """Evaluations that fail while compiling a function nested in a function whose parameters and
+    locals are named like the top-level names of `src`: whatever such a failure leaves behind in the
+    process meets exactly the names the next program uses."""
+    import re
+    names = re.findall(r"^(?:var|function)\s+([A-Za-z_$][\w$]*)", src, flags=re.M)[:8]
+    if not names:
+        return []
+    params = ", ".join(names[:4])
+    locs = " ".join("var %s = 1;" % n for n in names[4:])
+    return [
+        "function zz_outer(%s){ %s function zz_inner(){ break; } return 1; } zz_outer();" % (params, locs),
+        "function zz_outer2(%s){ %s var zz_f = function(){ return function(){ continue; }; }; } 1;" % (params, locs),
+        "function zz_outer3(%s){ %s function zz_i3(xs){ for (zz_o.p of xs) {} } } 1;" % (params, locs),
+        "function zz_outer4(%s){ %s return (function(){ throw new Error('poison'); })(); } zz_outer4();" % (params, locs),
+    ]
+
+
 def n_generated(tier):
     return 160 if tier == "quick" else 1500
 
@@ -236,6 +254,13 @@ def worker(seed, tier, variant, only=None):
                     eval_case(osrc, variant, rng, ocid)
                 except Exception:
                     pass
+        if variant["neighbours"] and only is None and rng.random() < 0.6:
+            for psrc in poison_twins(src):
+                if rng.random() < 0.5:
+                    try:
+                        eval_case(psrc, variant, rng)
+                    except Exception:
+                        pass
         r = eval_case(src, variant, rng, cid)
         out[cid] = hashlib.sha256(json.dumps(r, sort_keys=True, default=repr).encode()).hexdigest()
         if only is not None:
